@@ -13,7 +13,7 @@ from ..cfg import cfg_of, expr_owner_node, facts_at
 from ..fileeffects import inventory
 from ..loader import Program, AnalysisError, unparse
 from ..report import Check
-from . import c05, c09
+from . import c05, c07, c09
 
 PROP = 'C01'
 
@@ -255,32 +255,36 @@ def run(tier):
             'checker.execute from check/do_golden_runs',
             'the acceptance predicate and its wiring are the documented '
             'ones (C09.R1-R3 re-checked here)',
+            'candidate and output renderers satisfy the same emission '
+            'contract (C07.R1-R4 re-checked here)',
         ],
         clauses_not_decided=[
             'what the command really does on the final file',
-            'equality of token sequences between the candidate rendering '
-            'and the output rendering (C07)',
+            'the round-trip lemma of C07/C08 (reader inverse of renderer); '
+            'only the renderer contract is re-checked here',
             'pickling fidelity between worker and parent (C12)',
         ])
-    c05.rule_r4(chk, prog, 'C01.R1')
-    rule_r2(chk, prog)
+    chk.guard(c05.rule_r4, chk, prog, 'C01.R1')
+    chk.guard(rule_r2, chk, prog)
     effects = inventory(prog)
-    rule_r3(chk, prog, effects)
-    rule_r4(chk, prog)
-    c05.rule_adopt_write(chk, prog, 'C01.R2w')
+    chk.guard(rule_r3, chk, prog, effects)
+    chk.guard(rule_r4, chk, prog)
+    chk.guard(c05.rule_adopt_write, chk, prog, 'C01.R2w')
     # acceptance predicate (shared with C09)
     sub = Check('C09', 'proof', tier, [], [])
-    c09.rule_r1(sub, prog)
-    c09.rule_r2(sub, prog)
-    c09.rule_r3(sub, prog)
-    chk.rule('C01.R5', 'the acceptance predicate and its wiring equal the '
-             'documented rule (shared with C09.R1-R3)')
-    for r in sub.instances:
-        chk.instance('C01.R5', r['where'], r['what'],
-                     r['verdict'] == 'holds', r['argument'], nontrivial=True,
-                     loc=r['loc'])
-    for f_ in sub.findings:
-        chk.violation('C01.R5', f_.where, f_.construct, f_.msg, f_.loc)
+    chk.guard(c09.rule_r1, sub, prog)
+    chk.guard(c09.rule_r2, sub, prog)
+    chk.guard(c09.rule_r3, sub, prog)
+    chk.adopt('C01.R5', 'the acceptance predicate and its wiring equal the '
+              'documented rule (shared with C09.R1-R3)', sub)
+    # the two renderers agree token by token (shared with C07)
+    sub7 = Check('C07', 'other', tier, [], [])
+    chk.guard(c07.rule_emitters, sub7, prog, None)
+    chk.guard(c07.rule_callers, sub7, prog)
+    chk.adopt('C01.R6', 'the candidate renderer and the output renderers '
+              'emit every node exactly once, completely and in order '
+              '(shared with C07.R1-R4): the output file has the token '
+              'sequence of the accepted candidate', sub7)
     extra = None
     if tier == 'thorough':
         from .. import selftest
